@@ -9,6 +9,9 @@ GNext ==
   \/ \E s \in Servers : AdminBan(s) /\ H([op |-> "ban", s |-> s, a |-> ""])
   \/ \E s \in Servers : AdminUnban(s) /\ H([op |-> "unban", s |-> s, a |-> ""])
   \/ \E r \in Requests : (\E o \in Orders : Tx(r, o)) /\ H([op |-> "tx", s |-> "", a |-> r])
+  \* the same transaction, but the client's socket is reset right after it sent the statement: the pooler must treat
+  \* the servers exactly as if the client were still there
+  \/ \E r \in Requests : (\E o \in Orders : Tx(r, o)) /\ H([op |-> "tx_abandon", s |-> "", a |-> r])
 GSpec == Init /\ hist = <<>> /\ [][GNext]_gv
 Emit == (nops = MaxOps) => PrintT(<<"SCENARIO", ToJson(hist)>>)
 =============================================================================
